@@ -50,50 +50,95 @@ def enum_members(ci) -> Dict[str, ast.AST]:
 
 
 def match_arms(fi: FuncInfo, ename: str) -> Tuple[Dict[str, ast.match_case], Optional[ast.Match]]:
+    """member name -> the statement block (anything with a `.body`) that serves it.  Understands `match self`, if/elif chains and
+    guard clauses (`self is E.M`, `self == E.M`, `self in (E.A, E.B)`), a local alias of the enum class, and dispatch tables
+    (module-level or local dict literals {E.M: <function or lambda>} read as `TABLE[self](args…)`)"""
+    import copy as _copy
     arms, m = {}, None
+    aliases = {ename}
+    for n in walk_no_nested(fi.node):
+        if isinstance(n, ast.Assign) and len(n.targets) == 1 and isinstance(n.targets[0], ast.Name) and isinstance(n.value, ast.Name) and n.value.id == ename:
+            aliases.add(n.targets[0].id)
+
+    def member(e: ast.AST) -> Optional[str]:
+        if isinstance(e, ast.Attribute) and isinstance(e.value, ast.Name) and e.value.id in aliases:
+            return e.attr
+        d = dotted(e) or ""
+        if d.startswith(ename + ".") and d.count(".") == 1:
+            return d.split(".", 1)[1]
+        return None
+
     for n in walk_no_nested(fi.node):
         if isinstance(n, ast.Match) and src(n.subject) == "self":
             m = n
             for c in n.cases:
                 pats = c.pattern.patterns if isinstance(c.pattern, ast.MatchOr) else [c.pattern]
                 for p in pats:
-                    if isinstance(p, ast.MatchValue):
-                        d = dotted(p.value) or ""
-                        if d.startswith(ename + "."):
-                            arms[d.split(".", 1)[1]] = c
+                    if isinstance(p, ast.MatchValue) and member(p.value):
+                        arms[member(p.value)] = c
     # if/elif chains and guard clauses: `if self is Enum.Member` / `if self in (Enum.A, Enum.B)`
     for n in walk_no_nested(fi.node):
         if isinstance(n, ast.If) and isinstance(n.test, ast.Compare) and src(n.test.left) == "self" and len(n.test.ops) == 1:
             c = n.test.comparators[0]
             if isinstance(n.test.ops[0], (ast.Is, ast.Eq)):
-                d = dotted(c) or ""
-                if d.startswith(ename + "."):
-                    arms.setdefault(d.split(".", 1)[1], n)
+                if member(c):
+                    arms.setdefault(member(c), n)
             elif isinstance(n.test.ops[0], ast.In) and isinstance(c, (ast.Tuple, ast.List, ast.Set)):
                 for e in c.elts:
-                    d = dotted(e) or ""
-                    if d.startswith(ename + "."):
-                        arms.setdefault(d.split(".", 1)[1], n)
-    # dictionary dispatch: a module-level {Enum.Member: lambda params: …} table read by this function
-    if not arms:
-        used = {x.id for x in ast.walk(fi.node) if isinstance(x, ast.Name)}
-        for st in fi.module.tree.body:
-            tgt = st.targets[0] if isinstance(st, ast.Assign) and len(st.targets) == 1 else (st.target if isinstance(st, ast.AnnAssign) else None)
-            val = getattr(st, "value", None)
-            if isinstance(tgt, ast.Name) and tgt.id in used and isinstance(val, ast.Dict):
-                for k, v in zip(val.keys, val.values):
-                    d = dotted(k) or ""
-                    if d.startswith(ename + ".") and isinstance(v, ast.Lambda) and len(v.args.args) == 1:
-                        pname = v.args.args[0].arg
+                    if member(e):
+                        arms.setdefault(member(e), n)
+    # dispatch tables: {Enum.Member: callable} (module level or local), read as TABLE[self](args…) / TABLE[self]
+    tables: Dict[str, ast.Dict] = {}
+    used = {x.id for x in ast.walk(fi.node) if isinstance(x, ast.Name)}
+    for st in list(fi.module.tree.body) + [x for x in walk_no_nested(fi.node) if isinstance(x, (ast.Assign, ast.AnnAssign))]:
+        tgt = st.targets[0] if isinstance(st, ast.Assign) and len(st.targets) == 1 else (st.target if isinstance(st, ast.AnnAssign) else None)
+        val = getattr(st, "value", None)
+        if isinstance(tgt, ast.Name) and tgt.id in used and isinstance(val, ast.Dict) and val.keys and all(k is not None and member(k) for k in val.keys):
+            tables[tgt.id] = val
+    for x in walk_no_nested(fi.node):
+        if not isinstance(x, ast.Return) or x.value is None:
+            continue
+        v = x.value
+        call_args = None
+        sub = v
+        if isinstance(v, ast.Call) and isinstance(v.func, ast.Subscript):
+            sub, call_args = v.func, v
+        if isinstance(sub, ast.Subscript) and isinstance(sub.value, ast.Name) and sub.value.id in tables and src(sub.slice) == "self":
+            tb = tables[sub.value.id]
+            for k, fv in zip(tb.keys, tb.values):
+                if call_args is not None:
+                    if isinstance(fv, ast.Lambda):
+                        ps = [a.arg for a in fv.args.args]
+                        if len(ps) != len(call_args.args) or call_args.keywords:
+                            continue
+                        mp = dict(zip(ps, call_args.args))
 
                         class _R(ast.NodeTransformer):
                             def visit_Name(self, nn):
-                                return ast.copy_location(ast.Name(id="kwargs", ctx=nn.ctx), nn) if nn.id == pname else nn
-                        import copy as _copy
-                        body = _R().visit(_copy.deepcopy(v.body))
-                        arm = ast.If(test=ast.Constant(value=True), body=[ast.copy_location(ast.Return(value=body), v)], orelse=[])
-                        ast.copy_location(arm, v)
-                        arms[d.split(".", 1)[1]] = arm
+                                return _copy.deepcopy(mp[nn.id]) if nn.id in mp and isinstance(nn.ctx, ast.Load) else nn
+                        body = _R().visit(_copy.deepcopy(fv.body))
+                    else:
+                        body = ast.Call(func=_copy.deepcopy(fv), args=[_copy.deepcopy(a) for a in call_args.args], keywords=[_copy.deepcopy(kw) for kw in call_args.keywords])
+                else:
+                    body = _copy.deepcopy(fv)
+                arm = ast.If(test=ast.Constant(value=True), body=[ast.copy_location(ast.Return(value=body), fv)], orelse=[])
+                ast.copy_location(arm, fv)
+                ast.fix_missing_locations(arm)
+                arms.setdefault(member(k), arm)
+    # legacy form: module-level {Enum.Member: lambda params: …} table whose single parameter stands for kwargs
+    if not arms:
+        for name, val in tables.items():
+            for k, v in zip(val.keys, val.values):
+                if isinstance(v, ast.Lambda) and len(v.args.args) == 1:
+                    pname = v.args.args[0].arg
+
+                    class _R2(ast.NodeTransformer):
+                        def visit_Name(self, nn):
+                            return ast.copy_location(ast.Name(id="kwargs", ctx=nn.ctx), nn) if nn.id == pname else nn
+                    body = _R2().visit(_copy.deepcopy(v.body))
+                    arm = ast.If(test=ast.Constant(value=True), body=[ast.copy_location(ast.Return(value=body), v)], orelse=[])
+                    ast.copy_location(arm, v)
+                    arms[member(k)] = arm
     return arms, m
 
 
